@@ -305,6 +305,12 @@ def run(ck):
             if len(lens) > 1:
                 ck.discard('match=None scenario with unequal catalog lengths')
                 continue
+        if (any(im.get('nrows') is not None and im['nrows'] <= 3 for im in s['images'])
+                and any(im['kind'] == 'junk' for im in s['images'])):
+            # a 1..3-row catalog has a footprint so small that it may miss the (smaller than a chip) footprint of a
+            # junk catalog in the SAME field: zero overlap there is outside the model's "zero overlap <=> other field"
+            ck.discard('small (<= 3 rows) catalog together with a junk catalog in one field (outside the zero-overlap oracle)')
+            continue
         ck.count('stream', s.get('tag', '?'))
         ck.count('n_inputs', len(s['images']))
         ck.count('refcat', s['ref']['mode'])
